@@ -1,7 +1,31 @@
-(* C06 -- theorems are added as they are proved *)
-From Coq Require Import List NArith.
-From BV Require Import Lib.PyStr Model.Rewrite Model.Files.
+(* C06 -- a failing update leaves every file untouched: all files are validated before the first write.
+   Statements only; the proofs are in Proofs/RewriteFacts.v. *)
+From Coq Require Import List Bool NArith Arith Permutation.
+From BV Require Import Lib.PyStr Gen.Tables Model.Rewrite Proofs.RewriteFacts.
 Import ListNotations.
-Example C06_smoke : detect_line_sep [97;13;98]%N = [13]%N.
-Proof. vm_compute. reflexivity. Qed.
-Print Assumptions C06_smoke.
+
+Theorem C06_eager_atomic : forall fs items r es, rewrite_files_eager fs items = (r, es) -> r <> FilesOk -> writes es = [].
+Proof. exact eager_atomic. Qed.
+Print Assumptions C06_eager_atomic.
+
+Theorem C06_lazy_not_atomic : exists fs items r es, rewrite_files_lazy fs items = (r, es) /\ r <> FilesOk /\ writes es <> [].
+Proof. exact lazy_not_atomic. Qed.
+Print Assumptions C06_lazy_not_atomic.
+
+Theorem C06_repo_rewrite_is_eager : REWRITE_FILES_EAGER_V2 = true /\ REWRITE_FILES_EAGER_V1 = true.
+Proof. exact repo_rewrite_is_eager. Qed.
+Print Assumptions C06_repo_rewrite_is_eager.
+
+Theorem C06_dry_error_real_noop : forall fs changed items sorted_items r l, Permutation items sorted_items ->
+  diff_files fs changed sorted_items = (r, l) -> r <> FilesOk ->
+  (forall it c nc, In it sorted_items -> fs (fst it) = Some c -> new_content (snd it) c = Some nc ->
+                   eqb_str nc c && existsb changed (snd it) = false) ->
+  exists r' es, rewrite_files_eager fs items = (r', es) /\ r' <> FilesOk /\ writes es = [].
+Proof. exact dry_error_real_noop. Qed.
+Print Assumptions C06_dry_error_real_noop.
+
+Theorem C06_bad_item_real_noop : forall fs items,
+  (exists it, In it items /\ (fs (fst it) = None \/ exists c, fs (fst it) = Some c /\ new_content (snd it) c = None)) ->
+  exists r es, rewrite_files_eager fs items = (r, es) /\ r <> FilesOk /\ writes es = [].
+Proof. exact bad_item_real_noop. Qed.
+Print Assumptions C06_bad_item_real_noop.
